@@ -172,13 +172,22 @@ func expectText(s src, t *tkind) expectation {
 			}
 			return x
 		case "bigint":
-			// beyond every 64 bit type, so beyond the target's range; the float64
-			// next to it may be inside (-2^63-1 -> -2^63): classified on its own
-			x := errExp("integer-beyond-64-bits")
+			// beyond every 64 bit integer type. What number the text->value step
+			// makes of such a numeral is pinned by C17 (parse.Value reads numbers
+			// as integers where they fit, else as the nearest float64, like JSON),
+			// not by C03: the target must then hold exactly that float64's value,
+			// or the read fails. (-2^63-1 reads as the float64 -2^63, which an
+			// int64 holds; a literal STRING setting of the same text must fail
+			// and is judged on the string routes.)
 			if ti.hasF && !math.IsInf(ti.f, 0) {
-				x.neighbour = truncBig(ti.f)
+				x := expectNum(num{isFloat: true, f: ti.f}, t)
+				x.strict = false
+				if x.mode == mExact {
+					x.mode = mEither
+				}
+				return x
 			}
-			return x
+			return errExp("integer-beyond-64-bits")
 		}
 	case cFloat:
 		if isInt && e.mode != mErr {
